@@ -38,6 +38,7 @@ def check(rep, tier, seed, specs=None, n_override=None):
             rep.add_violation('harness-exception', r['error'][-1500:], r.get('spec'))
             continue
         rep.add_case(bool(r.get('nontrivial')), r.get('feature'), r.get('sample'))
+        rep.add_class_case((r.get('spec') or {}).get('stratum'))
         for k, v in (r.get('counters') or {}).items():
             rep.count(k, v)
         spec = r.get('spec')
